@@ -15,7 +15,7 @@ def fmt_op(o):
         return f"{k}({o['v']})"
     if k in ("lock", "try_lock", "read", "write", "try_read", "try_write"):
         return f"{k}(o{o['o']},g{o['w']})"
-    if k in ("unlock", "unlock_if", "ginc", "gget"):
+    if k in ("unlock", "unlock_if", "punlock", "ginc", "gget"):
         return f"{k}(g{o['w']})"
     if k == "cv_wait":
         return f"cv_wait(cv{o['o']},m{o['v']},g{o['w']})"
@@ -312,7 +312,7 @@ SHUTTLE_PROPS = {
                        {"fam": "async", "quick": 10, "thorough": 100, "mc": False, "sample": (40, 300), "pb": None}],
             "assume": ["one awaiter per hand-written waker slot; blocking std calls inside a poll are lock/unlock pairs and channel receives (no guard is held across an await)",
                        "block_on sections of threads use the same poll loop as spawned futures"]},
-    "C07": {"stages": [F("ident", 24, 200, mc=False), F("tls", 30, 300, mc=False), F("scope", 24, 200, mc=False),
+    "C07": {"stages": [F("ident", 24, 200, mc=False), F("tls", 30, 300, mc=False), F("corpus_tls", 0, 0, mc=False), F("scope", 24, 200, mc=False),
                        F("kernel", 14, 150)],
             "assume": ["thread-local destructor behaviour (reads another key / yields while dropping) is configured per program",
                        "scope returns once every scoped closure has returned (as in std, thread-local destructors of scoped threads may still be pending)"]},
@@ -348,7 +348,8 @@ SHUTTLE_PROPS = {
                        F("async", 30, 300), F("async_noabort", 24, 250), F("async_blk", 16, 150), F("async_wake", 12, 150),
                        F("corpus_async", 0, 0), F("corpus_deadlock", 0, 0)],
             "assume": ["termination oracle = derived Status (DESIGN 4.1); tasks<=3, ops<=3 (quick)"]},
-    "C04": {"stages": [F("mutex", 20, 200), F("rwlock", 16, 150), F("atomic", 20, 200), F("corpus_locks", 0, 0)],
+    "C04": {"stages": [F("mutex", 20, 200), F("rwlock", 16, 150), F("atomic", 20, 200), F("corpus_locks", 0, 0),
+                       F("corpus_poison", 0, 0, mc=False)],
             "assume": ["8-bit atomics in the specification; all orderings treated as SeqCst (Shuttle's documented model)"]},
     "C05": {"stages": [F("condvar", 18, 200), F("barrier", 20, 150), F("barrier_reuse", 12, 100), F("once", 16, 150),
                        F("park", 20, 150), F("park_mix", 16, 150), F("corpus_sync", 0, 0),
